@@ -12,7 +12,10 @@
 // rejects an out-of-bounds write inside the object, which ASan cannot see.
 //
 // MC_PART selects the index type (1 int, 2 size_t, 3..8 the other fixed-width types,
-// 9/10 rank 4 for int/size_t).
+// 9/10 rank 4 for int/size_t over {2,3,dynamic}); round 2: 11..15 = rank 4 over all five
+// dimension kinds (625 types, 125 per part, int), 16/17 = rank 5-6 (12 patterns, int / size_t),
+// 18..20 = rank 4 converting constructor over {2,3,dynamic} (81 targets x every compatible
+// source = 2401 pairs, 27 targets per part).
 //
 // Layout of the code: everything that is instantiated per extents type is a tiny function
 // (construct + read observers into plain arrays); loops, verification and text are compiled once.
@@ -28,9 +31,9 @@ using namespace c19;
 
 namespace {
 
-#if MC_PART == 1 || MC_PART == 9
+#if MC_PART == 1 || MC_PART == 9 || (MC_PART >= 11 && MC_PART <= 16) || (MC_PART >= 18 && MC_PART <= 20)
 using PartIndex = int;
-#elif MC_PART == 2 || MC_PART == 10
+#elif MC_PART == 2 || MC_PART == 10 || MC_PART == 17
 using PartIndex = unsigned long;
 #elif MC_PART == 3
 using PartIndex = signed char;
@@ -45,7 +48,7 @@ using PartIndex = unsigned;
 #elif MC_PART == 8
 using PartIndex = long;
 #endif
-constexpr bool part_rank4 = (MC_PART >= 9);
+constexpr bool part_rank4 = (MC_PART == 9 || MC_PART == 10);
 
 using A5 = alpha<2, 3, DC, 1, 0>;
 using A3 = alpha<2, 3, DC>;
@@ -322,6 +325,32 @@ void conv_all(Ctx& c, ll maxDyn, std::index_sequence<Ns...> /*s*/)
 {
     (conv_from_all<I, A, R, Ns>(c, maxDyn, std::make_index_sequence<compat<A, R, Ns>::count>{}), ...);
 }
+template <typename I, typename A, std::size_t R, std::size_t Lo, std::size_t... Ns>
+void conv_some(Ctx& c, ll maxDyn, std::index_sequence<Ns...> /*s*/)
+{
+    (conv_from_all<I, A, R, Lo + Ns>(c, maxDyn, std::make_index_sequence<compat<A, R, Lo + Ns>::count>{}), ...);
+}
+
+/// the conversions every extents type takes part in whatever the alphabet: from and to the
+/// all-dynamic type (both index types) and from the same pattern with the other index type
+template <typename I, typename... Es>
+struct same_pattern_other_index;
+template <typename I, std::size_t... Es>
+struct same_pattern_other_index<etl::extents<I, Es...>> {
+    using type = etl::extents<other_t<I>, Es...>;
+};
+template <typename E>
+void conv_star(Ctx& c, ll maxDyn)
+{
+    using I          = typename E::index_type;
+    using J          = other_t<I>;
+    constexpr auto R = E::rank();
+    conv_case<E, etl::dextents<J, R>>(c, maxDyn);
+    conv_case<E, etl::dextents<I, R>>(c, maxDyn);
+    conv_case<etl::dextents<J, R>, E>(c, maxDyn);
+    conv_case<etl::dextents<I, R>, E>(c, maxDyn);
+    conv_case<E, typename same_pattern_other_index<E>::type>(c, maxDyn);
+}
 
 // ---------------------------------------------------------------------------------------
 // constant-evaluation probe: is the construction a constant expression, and if so with which extents
@@ -426,7 +455,7 @@ void cx_report(Ctx& c, TypeInfo const& ti, CxResult const& res, char const* subj
 }
 
 template <typename E>
-void cx_case(Ctx& c)
+void cx_case(Ctx& c, bool count_type = true)
 {
     using X                  = cx<E>;
     constexpr TypeInfo const& ti = tinfo<E>;
@@ -443,7 +472,7 @@ void cx_case(Ctx& c)
         cx_report(c, ti, cx_res<E, typename X::f_from_dextents>, conv, allDyn ? "same_pattern" : "dynamic_to_static", "E(dextents of the same values)");
         cx_report(c, ti, cx_res<E, typename X::f_to_dextents>, conv, allDyn ? "same_pattern" : "static_to_dynamic", "dextents(E)");
     }
-    c.r.count("extents_types");
+    if (count_type) { c.r.count("extents_types"); }
 }
 
 // ---------------------------------------------------------------------------------------
@@ -470,6 +499,48 @@ void job_cx(mc::Reporter& r)
     r.sample(cat("constexpr probe: ", iname<I>(), " rank ", R, ": each constructor form constant-evaluated per extents type"));
     c.flush();
 }
+/// round 2: a slice [Lo, Lo+Count) of the patterns: every constructor form, the constexpr probe and the star conversions
+template <typename I, typename A, std::size_t R, std::size_t Lo, std::size_t Count>
+void job_slice(mc::Reporter& r, ll maxDyn)
+{
+    Ctx c(r);
+    for_patterns<I, A, R, Lo, Count>([&]<typename E>() {
+        if (r.deadline_passed()) {
+            if (r.exhaustive) { r.not_exhaustive("deadline"); }
+            return;
+        }
+        run_extents_case(c, tinfo<E>, ext_fns<E>, maxDyn);
+        cx_case<E>(c, false);
+        conv_star<E>(c, maxDyn);
+    });
+    r.sample(cat("patterns ", Lo, "..", Lo + Count - 1, " of rank ", R, " over ", A::n, " dimension kinds: constructors, constexpr probe, conversions from/to dextents and the other index type"));
+    c.flush();
+}
+template <typename I, typename List>
+void job_list(mc::Reporter& r, ll maxDyn)
+{
+    Ctx c(r);
+    for_types([&]<typename E>() {
+        if (r.deadline_passed()) {
+            if (r.exhaustive) { r.not_exhaustive("deadline"); }
+            return;
+        }
+        run_extents_case(c, tinfo<E>, ext_fns<E>, maxDyn);
+        cx_case<E>(c, false);
+        conv_star<E>(c, maxDyn);
+    }, List{});
+    c.flush();
+}
+template <typename I, typename A, std::size_t R, std::size_t Lo, std::size_t Count>
+void job_conv_some(mc::Reporter& r, ll maxDyn)
+{
+    Ctx c(r);
+    conv_some<I, A, R, Lo>(c, maxDyn, std::make_index_sequence<Count>{});
+    r.sample(cat("converting constructor: targets ", Lo, "..", Lo + Count - 1, " of rank ", R, " over ", A::n, " dimension kinds x every compatible source, target index ", iname<I>(),
+        ", source index ", iname<other_t<I>>(), ", source dynamic extents 0..", maxDyn));
+    c.flush();
+}
+
 template <typename I, typename A, std::size_t R>
 void job_conv(mc::Reporter& r, ll maxDyn)
 {
@@ -491,7 +562,17 @@ int main(int argc, char** argv)
     std::string const in = iname<I>();
     // parts 1 and 2 (int, size_t) run in both tiers, the other index types in the thorough tier
     auto const tiers = (MC_PART <= 2) ? both : th;
-    if constexpr (!part_rank4) {
+#if MC_PART >= 11 && MC_PART <= 15
+    constexpr std::size_t lo = (MC_PART - 11) * 125;
+    m.job(cat("extents/", in, "/rank4-5kinds/", lo, "-", lo + 124), th, [](mc::Reporter& r) { job_slice<I, A5, 4, (MC_PART - 11) * 125, 125>(r, 3); });
+#elif MC_PART == 16 || MC_PART == 17
+    m.job(cat("extents/", in, "/rank5"), th, [](mc::Reporter& r) { job_list<I, rank5_types<I>>(r, 3); });
+    m.job(cat("extents/", in, "/rank6"), th, [](mc::Reporter& r) { job_list<I, rank6_types<I>>(r, 3); });
+#elif MC_PART >= 18 && MC_PART <= 20
+    constexpr std::size_t lo = (MC_PART - 18) * 27;
+    m.job(cat("convert/", in, "/rank4-3kinds/", lo, "-", lo + 26), th, [](mc::Reporter& r) { job_conv_some<I, A3, 4, (MC_PART - 18) * 27, 27>(r, 3); });
+#elif MC_PART <= 8
+    {
         m.job(cat("extents/", in, "/rank0-2"), tiers, [](mc::Reporter& r) {
             job_extents<I, A5, 0>(r, 4);
             job_extents<I, A5, 1>(r, 4);
@@ -508,10 +589,13 @@ int main(int argc, char** argv)
             job_conv<I, A5, 2>(r, 4);
         });
         m.job(cat("convert/", in, "/rank3"), tiers, [](mc::Reporter& r) { job_conv<I, A3, 3>(r, 4); });
-    } else {
+    }
+#else
+    {
         m.job(cat("extents/", in, "/rank4"), th, [](mc::Reporter& r) { job_extents<I, A3, 4>(r, 3); });
         m.job(cat("constexpr/", in, "/rank4"), th, [](mc::Reporter& r) { job_cx<I, A3, 4>(r); });
         m.job(cat("convert/", in, "/rank4"), th, [](mc::Reporter& r) { job_conv<I, A2, 4>(r, 3); });
     }
+#endif
     return m.run();
 }
